@@ -285,7 +285,12 @@ func (p *Proxy) handleHTTP(r responder.Responder, proxyReq *http.Request) error 
 	metrics.Global.Requests.HTTPProxyRequests.Increment()
 
 	clientHd := headers.ParseHeaderDirective(proxyReq.Header)
-	clientHd.StripRegularConditionals(proxyReq.Header)
+	if proxyReq.Method == http.MethodGet || proxyReq.Method == http.MethodHead {
+		// Only for the methods the cache may answer are the client's conditionals the proxy's business. On a write
+		// (PUT, DELETE, PATCH, POST) If-Match and the like are the client's protection against lost updates and
+		// have to reach the origin.
+		clientHd.StripRegularConditionals(proxyReq.Header)
+	}
 
 	key := cache.MakeFromRequest(proxyReq)
 
